@@ -447,7 +447,7 @@ MarkDT(m, e) == IF m = "null" \/ e.sp = "nil" THEN "null"
                 ELSE IF e.sp \in {"qnan", "snan"} THEN "nan" ELSE e.dt
 
 Do(r, m, s, e) ==
-  IF ~HasMethod(r, m) THEN Fail(s, "structure")
+  IF ~HasMethod(r, m) THEN Fail(s, IF r \in {"MarkedKeyable", "MarkedAny"} THEN "marker" ELSE "structure")
   ELSE IF r \in {"MarkedKeyable", "MarkedAny"}
   THEN CASE m = "pad" -> s
          [] m \in {"null", "key", "nonkey"} ->
@@ -459,14 +459,14 @@ Do(r, m, s, e) ==
                   s2 == IF HasMethod(CurRule(s1), pm) THEN DoPlain(CurRule(s1), pm, s1, e) ELSE Fail(s1, "structure")
               IN Then(s2, LAMBDA t : MarkObject(t, MarkDT(m, e)))
          [] m \in {"array", "stringlike"} ->
-              IF ~ArrayTypeOKFor(r, e.at) THEN Fail(s, "structure")
+              IF ~ArrayTypeOKFor(r, e.at) THEN Fail(s, "marker")
               ELSE LET s1 == UnstackRule(s)
                        s2 == Do(CurRule(s1), m, s1, e)
                    IN Then(s2, LAMBDA t : MarkObject(t, e.at))
          [] m \in {"list", "map", "record", "abegin"} ->
               (* ctx.ParentRule().On<...>(ctx): the container is stacked on top   *)
               (* of the marker entry                                              *)
-              IF m = "abegin" /\ ~ArrayTypeOKFor(r, e.at) THEN Fail(s, "structure")
+              IF m = "abegin" /\ ~ArrayTypeOKFor(r, e.at) THEN Fail(s, "marker")
               ELSE IF ~HasMethod(ParentRule(s), m) THEN Fail(s, "structure")
               ELSE IF m = "abegin" /\ ~ArrayTypeOKFor(ParentRule(s), e.at) THEN Fail(s, "structure")
               ELSE DoPlain(ParentRule(s), m, s, e)
